@@ -10,13 +10,17 @@ import (
 	"github.com/emitter-io/address"
 	"github.com/emitter-io/stats"
 
+	"github.com/kelindar/binary/nocopy"
+
 	"github.com/emitter-io/emitter/internal/config"
+	"github.com/emitter-io/emitter/internal/event"
 	"github.com/emitter-io/emitter/internal/message"
 	"github.com/emitter-io/emitter/internal/network/mqtt"
 	"github.com/emitter-io/emitter/internal/provider/contract"
 	"github.com/emitter-io/emitter/internal/provider/storage"
 	"github.com/emitter-io/emitter/internal/provider/usage"
 	"github.com/emitter-io/emitter/internal/security"
+	"github.com/emitter-io/emitter/internal/security/hash"
 	"github.com/emitter-io/emitter/internal/security/license"
 	"github.com/emitter-io/emitter/internal/service/keygen"
 	"github.com/emitter-io/emitter/internal/service/presence"
@@ -87,13 +91,40 @@ func c18decode(v *verifrt.T, raw []byte) []c18note {
 // the unrelated third channel carries a reserved word of the API (emitter/presence/) as an ordinary name
 var c18chans = []string{"a/", "a/b/", "presence/"}
 
+// the scripted histories also use b/a/: the words of a/b/ in another order (same fold in the
+// per-connection subscription counters)
+var c18all = []string{"a/", "a/b/", "presence/", "b/a/"}
+
+// one scripted step: op (0 subscribe, 1 unsubscribe, 2 disconnect, 3 presence request), who, channel index
+type c18step struct{ op, who, ch int }
+
 // is channel x on channel p or below it
 func c18under(x, p string) bool { return strings.HasPrefix(x, p) }
 
 // VerifC18: histories of two clients subscribing / unsubscribing / disconnecting and a
 // watcher issuing presence requests (status and/or changes, on exact and parent
 // channels); the notifier is drained after every operation.
-func VerifC18(v *verifrt.T) {
+func VerifC18(v *verifrt.T) { c18history(v, nil) }
+
+// VerifC18Scripted: the same oracle on longer histories of fixed shape around the places
+// where the per-connection bookkeeping can lose a subscription: two filters with the same
+// fold on one connection, removed in either order, followed by a disconnect - watched by a
+// presence-change request on the parent and checked by the final status sweep.
+func VerifC18Scripted(v *verifrt.T) {
+	scripts := [][]c18step{
+		{{3, 0, 0}, {0, 0, 1}, {0, 0, 3}, {1, 0, 3}, {2, 0, 0}},            // watch a/; alice: a/b/, b/a/, leave b/a/, disconnect
+		{{3, 0, 0}, {0, 0, 1}, {0, 0, 3}, {1, 0, 1}, {2, 0, 0}},            // ... leave a/b/ first
+		{{3, 0, 0}, {0, 0, 3}, {0, 0, 1}, {1, 0, 3}, {1, 0, 1}, {0, 0, 1}}, // both removed, one taken again
+		{{3, 0, 0}, {0, 0, 1}, {0, 1, 1}, {0, 0, 1}, {1, 0, 1}, {2, 1, 0}}, // duplicate subscribe, two clients
+	}
+	c18history(v, scripts[v.Choice(len(scripts), "script")])
+}
+
+func c18history(v *verifrt.T, script []c18step) {
+	c18chans := c18chans
+	if script != nil {
+		c18chans = c18all
+	}
 	ciph := &hcipher{}
 	trie := message.NewTrie()
 	lic := &license.V1{User: 7, Sign: 9}
@@ -129,10 +160,27 @@ func VerifC18(v *verifrt.T) {
 	seen := 0
 
 	n := v.Bound("ops")
+	if script != nil {
+		n = len(script)
+	}
+	pick := func(i int) (op, who, ch int) {
+		if script != nil {
+			return script[i].op, script[i].who, script[i].ch
+		}
+		op = v.Choice(4, "op", i)
+		if op != 3 {
+			who = v.Choice(2, "who", i)
+		}
+		if op != 2 {
+			ch = v.Choice(len(c18chans), "ch", i)
+		}
+		return
+	}
 	for i := 0; i < n; i++ {
-		switch v.Choice(4, "op", i) {
+		op, who, chi := pick(i)
+		switch op {
 		case 0: // subscribe
-			x, ch := v.Choice(2, "who", i), c18chans[v.Choice(len(c18chans), "ch", i)]
+			x, ch := who, c18chans[chi]
 			if !alive[x] {
 				continue
 			}
@@ -145,7 +193,7 @@ func VerifC18(v *verifrt.T) {
 				}
 			}
 		case 1: // unsubscribe
-			x, ch := v.Choice(2, "who", i), c18chans[v.Choice(len(c18chans), "ch", i)]
+			x, ch := who, c18chans[chi]
 			if !alive[x] {
 				continue
 			}
@@ -158,7 +206,7 @@ func VerifC18(v *verifrt.T) {
 				}
 			}
 		case 2: // disconnect
-			x := v.Choice(2, "who", i)
+			x := who
 			if !alive[x] {
 				continue
 			}
@@ -173,9 +221,13 @@ func VerifC18(v *verifrt.T) {
 				}
 			}
 		case 3: // presence request by the watcher
-			ch := c18chans[v.Choice(len(c18chans), "ch", i)]
+			ch := c18chans[chi]
 			req := presence.Request{Key: key, Channel: ch, Status: v.Bool("status", i)}
-			switch v.Choice(3, "changes", i) {
+			chg := 1 // scripted: ask for changes
+			if script == nil {
+				chg = v.Choice(3, "changes", i)
+			}
+			switch chg {
 			case 1:
 				t := true
 				req.Changes = &t
@@ -265,4 +317,82 @@ func VerifC18(v *verifrt.T) {
 		}
 	}
 	v.Observe("notes", uint64(seen))
+}
+
+// VerifC18Burst: more subscribe transitions than the notifier's queue holds (100) arrive
+// before the notifier gets to run - a burst while it is stalled on a slow watcher. None may
+// be dropped: the watcher receives exactly one notification per transition, in order.
+func VerifC18Burst(v *verifrt.T) {
+	c18chans := c18chans
+	_ = c18chans
+	ciph := &hcipher{}
+	trie := message.NewTrie()
+	lic := &license.V1{User: 7, Sign: 9}
+	contracts := contract.NewSingleContractProvider(lic, usage.NewNoop())
+	svc := &Service{contracts: contracts, subscriptions: trie, License: lic, Config: &config.Config{}, measurer: stats.NewNoop()}
+	svc.keygen = keygen.New(ciph, contracts, svc)
+	ps := pubsub.New(svc, storage.NewNoop(), svc, trie)
+	svc.pubsub = ps
+	svc.presence = presence.New(svc, ps, c18survey{}, trie)
+	k := security.Key(make([]byte, 24))
+	k.SetMaster(1)
+	k.SetContract(7)
+	k.SetSignature(9)
+	k.SetPermissions(security.AllowReadWrite | security.AllowPresence)
+	k.SetTarget("#/")
+	key := ciph.add(k)
+
+	names := []string{"alice", "bob", "watcher"}
+	conns := make([]*Conn, 3)
+	socks := make([]*hsock, 3)
+	alive := []bool{true, true, true}
+	for i := range conns {
+		conns[i], socks[i] = hconn(svc, i)
+		conns[i].username = names[i]
+		conns[i].guid = conns[i].luid.Unique(svc.ID(), "emitter")
+	}
+	_ = alive
+	w := 2
+	t := true
+	req := presence.Request{Key: key, Channel: "a/", Status: false, Changes: &t}
+	var payload []byte
+	if v.Symbolic() {
+		c18req = req
+	} else {
+		payload, _ = json.Marshal(&req)
+	}
+	_, ok := svc.presence.OnRequest(conns[w], payload)
+	v.Assert(ok, "C18.env.presence-request-accepted")
+	verifrt.RunGoroutines()
+	n := v.Bound("burst")
+	ssid := message.Ssid{7, hash.OfString("a")}
+	burst := func() {
+		for i := 0; i < n; i++ {
+			who := i % 2
+			svc.NotifySubscribe(conns[who], &event.Subscription{Conn: conns[who].luid, User: nocopy.String(names[who]), Ssid: ssid, Channel: []byte("a/")})
+		}
+	}
+	if v.Symbolic() {
+		burst() // the notifier runs only when the sender would block, and at the end
+		verifrt.RunGoroutines()
+	} else {
+		// natively the notifier is a real goroutine: it is stalled on the watcher's socket while
+		// the burst arrives (from another goroutine, which blocks once the queue is full)
+		gate, done := make(chan struct{}), make(chan struct{})
+		socks[w].gate = gate
+		go func() { burst(); close(done) }()
+		time.Sleep(150 * time.Millisecond)
+		close(gate)
+		<-done
+		time.Sleep(200 * time.Millisecond)
+	}
+	v.Reach("burst-delivered")
+	var got []c18note
+	for _, raw := range socks[w].writes {
+		got = append(got, c18decode(v, raw)...)
+	}
+	v.Assert(len(got) == n, "C18.changes.none-dropped-in-a-burst")
+	for j := 0; j < len(got) && j < n; j++ {
+		v.Assert(got[j].event == "subscribe" && got[j].user == names[j%2], "C18.changes.burst-order")
+	}
 }
